@@ -91,7 +91,8 @@ def run_policy(case: dict) -> Result:
             if hasattr(policy, "purge_expired"):
                 audit.on_purge(policy.purge_expired(), clk[0])
     for oracle, shape, detail in audit.violations:
-        res.add(oracle, audit.comp, shape, detail)
+        comp = audit.order_comp if (oracle in ("order", "peek") and audit.order_comp) else audit.comp
+        res.add(oracle, comp, shape, detail)
     res.count("policy_ops", audit.ops)
     res.count("policy_pops_with_choice", 1 if audit.saw_order_choice else 0)
     res.seen("policies", audit.comp)
@@ -99,7 +100,26 @@ def run_policy(case: dict) -> Result:
     return res
 
 
+_KNOWN_KEYS = None
+
+
+def _only_known(family: str, case: dict) -> bool:
+    """True when every violation of this case has the key of a recorded known finding:
+    shrinking it again on every run would only burn the budget."""
+    global _KNOWN_KEYS
+    if _KNOWN_KEYS is None:
+        from hsverif import findings as kf
+
+        _KNOWN_KEYS = {kf.key_of(e) for e in kf.for_property(PID) if e.get("status") == "known"}
+    if not _KNOWN_KEYS:
+        return False
+    res = FAMILIES[family].run(case)
+    return bool(res.violations) and all(v.key() in _KNOWN_KEYS for v in res.violations)
+
+
 def shrink_policy(case: dict, still_fails) -> dict:
+    if _only_known("policy", case):
+        return case
     ops = ddmin(case["ops"], lambda o: still_fails({**case, "ops": o}), max_tests=150)
     return {**case, "ops": ops}
 
@@ -131,6 +151,8 @@ def run_pipe(case: dict) -> Result:
 
 
 def shrink_pipe(case: dict, still_fails) -> dict:
+    if _only_known("qr", case):  # all pipeline families share run_pipe
+        return case
     cur = copy.deepcopy(case)
 
     def with_arr(arr):
@@ -185,6 +207,6 @@ FAMILIES = {
 }
 
 BUDGET = {
-    "quick": {"policy": 3000, "qr": 800, "industrial": 800, "topology": 300},
-    "thorough": {"policy": 200000, "qr": 30000, "industrial": 30000, "topology": 10000},
+    "quick": {"policy": 6000, "qr": 3000, "industrial": 3000, "topology": 1500},
+    "thorough": {"policy": 300000, "qr": 200000, "industrial": 200000, "topology": 100000},
 }
